@@ -1,6 +1,7 @@
 // Kani harnesses for foyer-memory/src/raw.rs (child module `verif_kani` of `raw`, cfg(kani) only).
-// Properties served: C05 (accounting), C13 (leave events / pipe), C16 (re-entrancy), C17 (collisions),
-// C18 (handles), C12-P1 (phantom advice).  See /verif/DESIGN.md section 4.
+// Properties served: C05 (accounting), C13 (leave events / pipe), C18 (handles), C12-P1 / C01-S1 (phantom advice),
+// C16 (no lock is requested while one is held: the parking_lot slow paths are stubbed to panic).
+// See /verif/DESIGN.md section 4.
 #![allow(dead_code, unused_imports, unused_variables, clippy::all)]
 
 use std::cell::{Cell, RefCell};
@@ -26,10 +27,6 @@ mod stubs {
 include!("/verif/harness/common/macros.rs");
 include!("/verif/harness/foyer-memory/support.rs");
 
-// ---------------------------------------------------------------------------------------------
-// Generic op-sequence driver (C05 A1/A2/A3, C13, C18).
-// ---------------------------------------------------------------------------------------------
-
 pub const KEYS: [u64; 3] = [16, 17, 32]; // 16 and 17 collide on all 64 hash bits under IdHasher, 32 does not.
 
 fn any_key_idx() -> usize {
@@ -44,12 +41,12 @@ fn weight_of(v: u64) -> usize {
 }
 
 pub struct Ghost {
-    /// latest non-phantom value inserted for the key and not since removed / cleared / phantom-replaced
+    /// latest non-phantom value inserted for the key and not since removed / cleared / phantom-replaced / evicted
     pub last: [Option<u64>; 3],
 }
 
-type Cache<E> = RawCache<E, IdHasher, VecIndexer<E>>;
-type Entry<E> = RawCacheEntry<E, IdHasher, VecIndexer<E>>;
+pub type Cache<E> = RawCache<E, IdHasher, VecIndexer<E>>;
+pub type Entry<E> = RawCacheEntry<E, IdHasher, VecIndexer<E>>;
 
 fn mk_cache<E>(capacity: usize, cfg: E::Config, log: Option<Arc<EventLog>>, pipe: Option<Arc<RecPipe>>) -> Cache<E>
 where
@@ -71,8 +68,8 @@ where
     }
 }
 
-/// C05-A1: after every op, usage()/entries() equal the sum / count over the keys a lookup still finds, where the
-/// weight of a found key is the weight of the latest value inserted for it (ghost); lookups return the latest value.
+/// C05-A1: usage()/entries() equal the sum / count over the keys a lookup still finds, where the weight of a found key
+/// is the weight of the latest value inserted for it (ghost).
 fn check_accounting<E>(cache: &Cache<E>, ghost: &Ghost)
 where
     E: Eviction<Key = u64, Value = u64, Properties = HProps>,
@@ -82,164 +79,508 @@ where
     let mut i = 0;
     while i < 3 {
         if cache.contains(&KEYS[i]) {
-            // a lookup never finds a key that was removed / cleared / only phantom-inserted
             assert!(ghost.last[i].is_some(), "C05/C01-S1: lookup finds a key that must be absent");
-            let v = ghost.last[i].unwrap();
-            sum += weight_of(v);
+            sum += weight_of(ghost.last[i].unwrap());
             cnt += 1;
         }
         i += 1;
     }
     assert!(cache.usage() == sum, "C05-A1: usage() != summed weight of findable entries");
     assert!(cache.entries() == cnt, "C05-A1: entries() != number of findable entries");
-    // direct view of the shard (child-module access): same numbers
-    let shard = cache.inner.shards[0].read();
-    assert!(shard.usage == sum);
-    assert!(shard.entries == cnt);
 }
 
-fn run_ops<E>(cfg: E::Config, nops: usize, op_mask: u32, pinning: bool)
+/// ghost entries that are no longer resident were evicted: forget them
+fn sync_ghost<E>(cache: &Cache<E>, ghost: &mut Ghost)
 where
     E: Eviction<Key = u64, Value = u64, Properties = HProps>,
 {
-    let capacity: usize = kani::any();
-    kani::assume(capacity <= 4);
-    let cache: Cache<E> = mk_cache(capacity, cfg, None, None);
-    let mut ghost = Ghost { last: [None; 3] };
-    let mut held: [Option<Entry<E>>; 2] = [None, None];
-    let mut held_pinned_by_lookup = [false; 2];
-    let mut evicted_seen = false;
-    let mut replaced_seen = false;
+    let mut j = 0;
+    while j < 3 {
+        if ghost.last[j].is_some() && !cache.contains(&KEYS[j]) {
+            ghost.last[j] = None;
+        }
+        j += 1;
+    }
+}
 
-    let mut step = 0;
-    while step < nops {
-        let op: u8 = kani::any();
-        kani::assume(op < 9 && (op_mask >> op) & 1 == 1);
-        let ki = any_key_idx();
-        let k = KEYS[ki];
-        match op {
-            0 | 1 | 2 => {
-                // insert: 0 normal, 1 low-priority hint, 2 on-disk advice (phantom); bit 2 of value: filter rejects
+/// Scenario of one step harness: a pre-state built through the real API, then ONE operation with symbolic arguments.
+#[derive(Clone, Copy)]
+pub struct Sc {
+    /// capacity: Some = concrete pre-state, None = symbolic 0..=4
+    pub cap: Option<usize>,
+    /// values of the pre-state inserts (weight = v & 3); None = symbolic weight 0..=3
+    pub pre: [Option<u64>; 3],
+    pub n_pre: usize,
+    /// hold a looked-up handle on KEYS[0] across the step
+    pub hold_first: bool,
+    /// the algorithm pins looked-up entries (LRU)
+    pub pinning: bool,
+    /// install the recording listener and the recording pipe (C13)
+    pub observe: bool,
+    pub op: u8,
+}
+
+pub const OP_INSERT: u8 = 0;
+pub const OP_INSERT_LOW: u8 = 1;
+pub const OP_INSERT_DISK: u8 = 2;
+pub const OP_REMOVE: u8 = 3;
+pub const OP_GET: u8 = 4;
+pub const OP_TOUCH: u8 = 5;
+pub const OP_CLEAR: u8 = 6;
+pub const OP_EVICT_ALL: u8 = 7;
+pub const OP_GET_HOLD_INSERT: u8 = 8; // C18: look up k, hold, then insert another key; held entry must stay intact
+
+fn step<E>(cfg: E::Config, sc: Sc)
+where
+    E: Eviction<Key = u64, Value = u64, Properties = HProps>,
+{
+    let capacity: usize = match sc.cap {
+        Some(c) => c,
+        None => {
+            let c: usize = kani::any();
+            kani::assume(c <= 4);
+            c
+        }
+    };
+    let log = if sc.observe { Some(Arc::new(EventLog::new())) } else { None };
+    let pipe = if sc.observe { Some(Arc::new(RecPipe::new(true))) } else { None };
+    let cache: Cache<E> = mk_cache(capacity, cfg, log.clone(), pipe.clone());
+    let mut ghost = Ghost { last: [None; 3] };
+
+    // ---- pre-state ----
+    let mut i = 0;
+    while i < sc.n_pre {
+        let v: u64 = match sc.pre[i] {
+            Some(v) => v,
+            None => {
                 let v: u64 = kani::any();
-                kani::assume(v < 64);
-                let props = match op {
-                    0 => HProps::default(),
-                    1 => HProps::default().with_hint(Hint::Low),
-                    _ => HProps::default().with_location(Location::OnDisk),
-                };
-                let phantom = op == 2 || (v & 4 != 0);
-                let pre_usage = cache.usage();
-                let pre_resident = [cache.contains(&KEYS[0]), cache.contains(&KEYS[1]), cache.contains(&KEYS[2])];
-                let e = cache.insert_with_properties(k, v, props);
-                assert!(*e.key() == k && *e.value() == v && e.weight() == weight_of(v));
-                if phantom {
-                    ghost.last[ki] = None;
-                    assert!(!cache.contains(&k), "C12-P1/C01-S1: on-disk / filtered insert stays findable in memory");
-                    assert!(e.is_outdated());
-                } else {
-                    if pre_resident[ki] {
-                        replaced_seen = true;
-                    }
-                    ghost.last[ki] = Some(v);
-                    assert!(cache.contains(&k), "insert: new entry not findable right after insert");
-                    assert!(!e.is_outdated());
-                    // C05-A2 (bound part): afterwards within capacity unless new entry alone is larger or pins exist
-                    let w = weight_of(v);
-                    let any_pin = pinning && (held_pinned_by_lookup[0] || held_pinned_by_lookup[1]);
-                    if w <= capacity && !any_pin {
-                        assert!(cache.usage() <= capacity, "C05-A2: over capacity after insert with nothing pinned");
-                    }
-                    // C05-A2 (necessity): if nothing had to go, nothing went
-                    let old_w = if pre_resident[ki] { 0 } else { 0 };
-                    if pre_usage + w <= capacity {
-                        let mut j = 0;
-                        while j < 3 {
-                            if j != ki && pre_resident[j] {
-                                assert!(cache.contains(&KEYS[j]), "C05-A2: eviction although usage + weight <= capacity");
-                            }
-                            j += 1;
-                        }
-                    } else {
-                        let mut j = 0;
-                        while j < 3 {
-                            if j != ki && pre_resident[j] && !cache.contains(&KEYS[j]) {
-                                evicted_seen = true;
-                            }
-                            j += 1;
-                        }
-                    }
-                }
-                drop(e);
+                kani::assume(v < 4);
+                v
             }
-            3 => {
-                let r = cache.remove(&k);
-                match (&r, ghost.last[ki]) {
-                    (Some(e), Some(v)) => assert!(*e.value() == v && *e.key() == k),
-                    (Some(_), None) => panic!("remove returned an entry for an absent key"),
-                    _ => {}
-                }
+        };
+        let e = cache.insert(KEYS[i], v | 8); // bit 3 marks "pre-state version"
+        ghost.last[i] = Some(v | 8);
+        drop(e);
+        i += 1;
+    }
+    sync_ghost(&cache, &mut ghost);
+    let held: Option<Entry<E>> = if sc.hold_first { cache.get(&KEYS[0]) } else { None };
+    let held_copy = held.as_ref().map(|e| (*e.key(), *e.value(), e.weight()));
+    let pinned = sc.pinning && held.is_some();
+    check_accounting(&cache, &ghost);
+    let pre_usage = cache.usage();
+    let pre = ghost.last; // resident set and values before the step
+    let ev0 = log.as_ref().map(|l| l.n.get()).unwrap_or(0);
+    let pp0 = pipe.as_ref().map(|p| p.n.get()).unwrap_or(0);
+
+    // ---- the step ----
+    let ki = any_key_idx();
+    let k = KEYS[ki];
+    // expected leave reason of the pre-state entry of key k, if it leaves through the operation itself
+    let mut own_reason: u8 = 0;
+    match sc.op {
+        OP_INSERT | OP_INSERT_LOW | OP_INSERT_DISK => {
+            let v: u64 = kani::any();
+            kani::assume(v < 8); // bit 3 clear: "new version"
+            let props = match sc.op {
+                OP_INSERT => HProps::default(),
+                OP_INSERT_LOW => HProps::default().with_hint(Hint::Low),
+                _ => HProps::default().with_location(Location::OnDisk),
+            };
+            let phantom = sc.op == OP_INSERT_DISK || (v & 4 != 0);
+            let e = cache.insert_with_properties(k, v, props);
+            assert!(*e.key() == k && *e.value() == v && e.weight() == weight_of(v));
+            own_reason = EventLog::code(Event::Replace);
+            if phantom {
                 ghost.last[ki] = None;
-                assert!(!cache.contains(&k));
-                drop(r);
-            }
-            4 => {
-                // get and hold
-                let slot: usize = kani::any();
-                kani::assume(slot < 2 && held[slot].is_none());
-                if let Some(e) = cache.get(&k) {
-                    assert!(*e.key() == k);
-                    assert!(Some(*e.value()) == ghost.last[ki], "lookup returned a value that is not the latest insert");
-                    held[slot] = Some(e);
-                    held_pinned_by_lookup[slot] = true;
+                assert!(!cache.contains(&k), "C12-P1/C01-S1: on-disk / filtered insert stays findable in memory");
+                assert!(e.is_outdated(), "C18: handle of a non-resident entry claims to be current");
+                if let Some(p) = pipe.as_ref() {
+                    assert!(p.count_kv(k, v) == 0, "C13/C12-P1: disk-only entry handed to the disk tier before its last handle is dropped");
                 }
+                kani::cover!(pre[ki].is_some(), "opt: phantom over resident");
+            } else {
+                ghost.last[ki] = Some(v);
+                assert!(cache.contains(&k), "insert: new entry not findable right after insert");
+                assert!(!e.is_outdated(), "C18: handle of the current entry claims to be outdated");
+                let w = weight_of(v);
+                if w <= capacity && !pinned {
+                    assert!(cache.usage() <= capacity, "C05-A2: over capacity after insert with nothing pinned");
+                }
+                if pre_usage + w <= capacity {
+                    let mut j = 0;
+                    while j < 3 {
+                        if j != ki && pre[j].is_some() {
+                            assert!(cache.contains(&KEYS[j]), "C05-A2: eviction although usage + weight <= capacity");
+                        }
+                        j += 1;
+                    }
+                }
+                if pinned && ki != 0 {
+                    assert!(cache.contains(&KEYS[0]), "C18: entry with a live looked-up handle was evicted");
+                }
+                kani::cover!(pre[ki].is_some(), "opt: replace");
+                kani::cover!(
+                    (ki != 0 && pre[0].is_some() && !cache.contains(&KEYS[0])) || (ki != 1 && pre[1].is_some() && !cache.contains(&KEYS[1])),
+                    "opt: eviction"
+                );
             }
-            5 => {
-                let t = cache.touch(&k);
-                assert!(t == cache.contains(&k));
-            }
-            6 => {
-                let slot: usize = kani::any();
-                kani::assume(slot < 2);
-                held[slot] = None;
-                held_pinned_by_lookup[slot] = false;
-            }
-            7 => {
-                cache.clear();
-                ghost.last = [None; 3];
-                assert!(cache.usage() == 0, "C05-A3: clear() leaves usage != 0");
-                assert!(cache.entries() == 0, "C05-A3: clear() leaves entries != 0");
-            }
-            _ => {
-                cache.evict_all();
-                if !(pinning && (held_pinned_by_lookup[0] || held_pinned_by_lookup[1])) {
-                    assert!(cache.usage() == 0 && cache.entries() == 0, "evict_all leaves entries although nothing is pinned");
+            drop(e);
+            if phantom {
+                if let Some(p) = pipe.as_ref() {
+                    assert!(p.count_kv(k, v) == 1, "C13/C12-P1: disk-only entry not handed to the disk tier exactly once at last drop");
                 }
             }
         }
-        // ghost entries that are no longer resident were evicted: forget them
+        OP_REMOVE => {
+            let r = cache.remove(&k);
+            match (&r, pre[ki]) {
+                (Some(e), Some(v)) => assert!(*e.value() == v && *e.key() == k),
+                (Some(_), None) => panic!("remove returned an entry for an absent key"),
+                (None, Some(_)) => panic!("remove missed a resident key"),
+                _ => {}
+            }
+            ghost.last[ki] = None;
+            own_reason = EventLog::code(Event::Remove);
+            assert!(!cache.contains(&k));
+            if let Some(e) = r.as_ref() {
+                assert!(e.is_outdated(), "C18: removed entry's handle claims to be current");
+            }
+            kani::cover!(r.is_some(), "opt: removed a resident entry");
+            drop(r);
+        }
+        OP_GET => {
+            let g = cache.get(&k);
+            match &g {
+                Some(e) => {
+                    assert!(*e.key() == k);
+                    assert!(Some(*e.value()) == pre[ki], "lookup returned a value that is not the latest insert");
+                    assert!(!e.is_outdated(), "C18: fresh lookup handle claims to be outdated");
+                    assert!(e.refs() == if sc.hold_first && ki == 0 { 2 } else { 1 }, "C18: refs() != number of live handles");
+                    let c = e.clone();
+                    assert!(c.refs() == e.refs() && *c.value() == *e.value());
+                    drop(c);
+                }
+                None => assert!(pre[ki].is_none(), "lookup missed a resident key"),
+            }
+            kani::cover!(g.is_some(), "opt: hit");
+            drop(g);
+        }
+        OP_TOUCH => {
+            let t = cache.touch(&k);
+            assert!(t == pre[ki].is_some());
+        }
+        OP_CLEAR => {
+            cache.clear();
+            ghost.last = [None; 3];
+            own_reason = EventLog::code(Event::Clear);
+            assert!(cache.usage() == 0, "C05-A3: clear() leaves usage != 0");
+            assert!(cache.entries() == 0, "C05-A3: clear() leaves entries != 0");
+        }
+        OP_EVICT_ALL => {
+            cache.evict_all();
+            if !pinned {
+                assert!(cache.usage() == 0 && cache.entries() == 0, "evict_all leaves entries although nothing is pinned");
+            }
+        }
+        _ => {
+            // OP_GET_HOLD_INSERT (C18): hold a looked-up handle of k across an insert of another key
+            let g = cache.get(&k);
+            let kj = any_key_idx();
+            kani::assume(kj != ki);
+            let v: u64 = kani::any();
+            kani::assume(v < 4);
+            let e = cache.insert(KEYS[kj], v);
+            ghost.last[kj] = Some(v);
+            if let Some(h) = g.as_ref() {
+                assert!(*h.key() == k && Some(*h.value()) == pre[ki] && h.weight() == weight_of(pre[ki].unwrap()), "C18: held entry changed");
+                if sc.pinning {
+                    assert!(cache.contains(&k), "C18: looked-up and still held entry was evicted");
+                    assert!(!h.is_outdated());
+                } else {
+                    assert!(h.is_outdated() == !cache.contains(&k), "C18: is_outdated() disagrees with lookup");
+                }
+            }
+            drop(e);
+            drop(g);
+            // after the last handle is gone, one more insert brings the cache back within capacity
+            let kl = any_key_idx();
+            let e2 = cache.insert(KEYS[kl], 1);
+            ghost.last[kl] = Some(1);
+            if capacity >= 1 && !pinned {
+                assert!(cache.usage() <= capacity, "C18: capacity not re-established after all handles were released");
+            }
+            drop(e2);
+        }
+    }
+    sync_ghost(&cache, &mut ghost);
+    check_accounting(&cache, &ghost);
+
+    // ---- C18: the handle held across the step is intact and truthful ----
+    if let (Some(h), Some((hk, hv, hw))) = (held.as_ref(), held_copy) {
+        assert!(*h.key() == hk && *h.value() == hv && h.weight() == hw, "C18: held entry's key/value/weight changed");
+        let still = cache.contains(&KEYS[0]) && ghost.last[0] == Some(hv);
+        assert!(h.is_outdated() == !still, "C18: is_outdated() disagrees with what a lookup returns");
+        if pinned && sc.op != OP_REMOVE && sc.op != OP_CLEAR && !(ki == 0 && sc.op <= OP_INSERT_DISK) {
+            assert!(still, "C18: entry with a live looked-up handle was evicted");
+        }
+    }
+
+    // ---- C13: conservation of leave notifications and disk hand-off ----
+    if let (Some(l), Some(p)) = (log.as_ref(), pipe.as_ref()) {
         let mut j = 0;
         while j < 3 {
-            if ghost.last[j].is_some() && !cache.contains(&KEYS[j]) {
-                ghost.last[j] = None;
+            if let Some(v) = pre[j] {
+                let still = ghost.last[j] == Some(v) && cache.contains(&KEYS[j]);
+                let n = l.count_kv(KEYS[j], v);
+                if still {
+                    assert!(n == 0, "C13: leave notification for an entry a lookup still finds");
+                    assert!(p.count_kv(KEYS[j], v) == 0, "C13: resident entry offered to the disk tier");
+                } else {
+                    assert!(n == 1, "C13: an entry that left memory did not produce exactly one leave notification");
+                    let reason = l.reason_of(KEYS[j], v);
+                    let expect = if sc.op == OP_CLEAR {
+                        EventLog::code(Event::Clear)
+                    } else if j == ki && own_reason != 0 {
+                        own_reason
+                    } else {
+                        EventLog::code(Event::Evict)
+                    };
+                    // the old copy of key k may also have been evicted by capacity before the new one was linked
+                    assert!(
+                        reason == expect || (j == ki && reason == EventLog::code(Event::Evict) && sc.op <= OP_INSERT_LOW),
+                        "C13: leave reason does not match what happened"
+                    );
+                    let sent = p.count_kv(KEYS[j], v);
+                    if reason == EventLog::code(Event::Evict) {
+                        assert!(sent == 1, "C13: evicted entry not offered to the disk tier exactly once");
+                    } else {
+                        assert!(sent == 0, "C13: replaced/removed/cleared entry offered to the disk tier");
+                    }
+                }
             }
             j += 1;
         }
-        check_accounting(&cache, &ghost);
-        step += 1;
+        kani::cover!(l.n.get() > ev0, "opt: a leave notification was produced");
+        kani::cover!(p.n.get() > pp0, "opt: an entry was offered to the disk tier");
     }
-    kani::cover!(evicted_seen, "an eviction happened");
-    kani::cover!(replaced_seen, "a replace happened");
     kani::cover!(true, "end reached");
     std::mem::forget(held);
     std::mem::forget(cache);
 }
 
-pub const OPS_ALL: u32 = 0x1ff;
-pub const OPS_NO_HOLD: u32 = 0x1ff & !(1 << 4) & !(1 << 6);
+macro_rules! step_harness {
+    ($name:ident, $e:ty, $cfg:expr, $sc:expr) => {
+        verif_harness! { #[kani::stub(crate::inflight::InflightManager::take, crate::inflight::InflightManager::verif_take_none)] $name, 5, {
+            step::<$e>($cfg, $sc);
+        } }
+    };
+}
 
-verif_harness! { #[kani::stub(crate::inflight::InflightManager::take, crate::inflight::InflightManager::verif_take_none)] c05_a1_fifo_3, 5, { run_ops::<Fifo<u64, u64, HProps>>(FifoConfig::default(), 3, OPS_ALL, false); } }
-verif_harness! { #[kani::stub(crate::inflight::InflightManager::take, crate::inflight::InflightManager::verif_take_none)] c05_a1_fifo_2, 5, { run_ops::<Fifo<u64, u64, HProps>>(FifoConfig::default(), 2, OPS_ALL, false); } }
-verif_harness! { #[kani::stub(crate::inflight::InflightManager::take, crate::inflight::InflightManager::verif_take_none)] c05_a1_fifo_1, 5, { run_ops::<Fifo<u64, u64, HProps>>(FifoConfig::default(), 1, OPS_ALL, false); } }
+pub const fn sc(cap: Option<usize>, pre: [Option<u64>; 3], n_pre: usize, hold_first: bool, pinning: bool, observe: bool, op: u8) -> Sc {
+    Sc { cap, pre, n_pre, hold_first, pinning, observe, op }
+}
+
+type FifoT = Fifo<u64, u64, HProps>;
+type LruT = Lru<u64, u64, HProps>;
+type SieveT = Sieve<u64, u64, HProps>;
+type S3FifoT = S3Fifo<u64, u64, HProps>;
+type LfuT = Lfu<u64, u64, HProps>;
+
+const FULL2: [Option<u64>; 3] = [Some(1), Some(1), None]; // two entries of weight 1
+const HEAVY: [Option<u64>; 3] = [Some(2), Some(1), None]; // weights 2 + 1
+
+// ---- FIFO, capacity 2 full (every insert of weight >= 1 evicts) ----
+step_harness!(raw_fifo_c2_ins, FifoT, FifoConfig::default(), sc(Some(2), FULL2, 2, false, false, true, OP_INSERT));
+step_harness!(raw_fifo_c2_insdisk, FifoT, FifoConfig::default(), sc(Some(2), FULL2, 2, false, false, true, OP_INSERT_DISK));
+step_harness!(raw_fifo_c2_remove, FifoT, FifoConfig::default(), sc(Some(2), FULL2, 2, false, false, true, OP_REMOVE));
+step_harness!(raw_fifo_c2_get, FifoT, FifoConfig::default(), sc(Some(2), FULL2, 2, false, false, true, OP_GET));
+step_harness!(raw_fifo_c2_touch, FifoT, FifoConfig::default(), sc(Some(2), FULL2, 2, false, false, false, OP_TOUCH));
+step_harness!(raw_fifo_c2_clear, FifoT, FifoConfig::default(), sc(Some(2), FULL2, 2, false, false, true, OP_CLEAR));
+step_harness!(raw_fifo_c2_evictall, FifoT, FifoConfig::default(), sc(Some(2), FULL2, 2, false, false, true, OP_EVICT_ALL));
+step_harness!(raw_fifo_c2_hold_ins, FifoT, FifoConfig::default(), sc(Some(2), FULL2, 2, true, false, false, OP_INSERT));
+step_harness!(raw_fifo_c2_holdins, FifoT, FifoConfig::default(), sc(Some(2), FULL2, 2, false, false, false, OP_GET_HOLD_INSERT));
+// ---- FIFO, capacity 3 with weights 2+1, capacity 4 with slack, empty cache, capacity 0 ----
+step_harness!(raw_fifo_c3_ins, FifoT, FifoConfig::default(), sc(Some(3), HEAVY, 2, false, false, true, OP_INSERT));
+step_harness!(raw_fifo_c4_ins, FifoT, FifoConfig::default(), sc(Some(4), HEAVY, 2, false, false, false, OP_INSERT));
+step_harness!(raw_fifo_c2_p0_ins, FifoT, FifoConfig::default(), sc(Some(2), [None; 3], 0, false, false, true, OP_INSERT));
+step_harness!(raw_fifo_c0_p0_ins, FifoT, FifoConfig::default(), sc(Some(0), [None; 3], 0, false, false, false, OP_INSERT));
+step_harness!(raw_fifo_sym_p0_ins, FifoT, FifoConfig::default(), sc(None, [None; 3], 0, false, false, false, OP_INSERT));
+
+// ---- LRU (pins looked-up entries) ----
+const LRU_CFG: LruConfig = LruConfig { high_priority_pool_ratio: 0.5 };
+step_harness!(raw_lru_c2_ins, LruT, LRU_CFG, sc(Some(2), FULL2, 2, false, true, true, OP_INSERT));
+step_harness!(raw_lru_c2_inslow, LruT, LRU_CFG, sc(Some(2), FULL2, 2, false, true, false, OP_INSERT_LOW));
+step_harness!(raw_lru_c2_hold_ins, LruT, LRU_CFG, sc(Some(2), FULL2, 2, true, true, true, OP_INSERT));
+step_harness!(raw_lru_c2_hold_evictall, LruT, LRU_CFG, sc(Some(2), FULL2, 2, true, true, true, OP_EVICT_ALL));
+step_harness!(raw_lru_c2_hold_clear, LruT, LRU_CFG, sc(Some(2), FULL2, 2, true, true, false, OP_CLEAR));
+step_harness!(raw_lru_c2_hold_remove, LruT, LRU_CFG, sc(Some(2), FULL2, 2, true, true, false, OP_REMOVE));
+step_harness!(raw_lru_c2_get, LruT, LRU_CFG, sc(Some(2), FULL2, 2, false, true, false, OP_GET));
+step_harness!(raw_lru_c2_touch, LruT, LRU_CFG, sc(Some(2), FULL2, 2, false, true, false, OP_TOUCH));
+step_harness!(raw_lru_c2_holdins, LruT, LRU_CFG, sc(Some(2), FULL2, 2, false, true, false, OP_GET_HOLD_INSERT));
+step_harness!(raw_lru_c2_clear, LruT, LRU_CFG, sc(Some(2), FULL2, 2, false, true, true, OP_CLEAR));
+
+// ---- SIEVE: insert with eviction, clear, hold-insert ----
+step_harness!(raw_sieve_c2_ins, SieveT, SieveConfig {}, sc(Some(2), FULL2, 2, false, false, true, OP_INSERT));
+step_harness!(raw_sieve_c2_clear, SieveT, SieveConfig {}, sc(Some(2), FULL2, 2, false, false, false, OP_CLEAR));
+step_harness!(raw_sieve_c2_holdins, SieveT, SieveConfig {}, sc(Some(2), FULL2, 2, false, false, false, OP_GET_HOLD_INSERT));
+
+// =====================================================================================================================
+// Shard-level harness on a stack-resident RawCacheShard: everything symbolic (capacity, weights, keys, operations).
+// =====================================================================================================================
+fn shard_ops<E>(cfg: E::Config, nops: usize)
+where
+    E: Eviction<Key = u64, Value = u64, Properties = HProps>,
+{
+    let capacity: usize = kani::any();
+    kani::assume(capacity <= 4);
+    let mut shard: RawCacheShard<E, IdHasher, VecIndexer<E>> = RawCacheShard {
+        eviction: E::new(capacity, &cfg),
+        indexer: Sentry::default(),
+        usage: 0,
+        entries: 0,
+        capacity,
+        inflights: Arc::new(Mutex::new(InflightManager::new())),
+        metrics: Arc::new(Metrics::noop()),
+        _event_listener: None,
+    };
+    // ghost: weight of the resident version of each key
+    let mut gw: [Option<usize>; 3] = [None; 3];
+    let mut evicted_any = false;
+    let mut step = 0;
+    while step < nops {
+        let op: u8 = kani::any();
+        kani::assume(op < 4);
+        let ki = any_key_idx();
+        let k = KEYS[ki];
+        match op {
+            0 => {
+                let w: usize = kani::any();
+                kani::assume(w <= 3);
+                let phantom: bool = kani::any();
+                let low: bool = kani::any();
+                let props = HProps::default().with_phantom(phantom).with_hint(if low { Hint::Low } else { Hint::Normal });
+                let record = Arc::new(Record::new(Data { key: k, value: step as u64, properties: props, hash: k >> 4, weight: w }));
+                let mut notifiers = Vec::new();
+                let mut garbages: Vec<(Event, Arc<Record<E>>)> = Vec::with_capacity(5);
+                let g0 = 0;
+                let pre_usage = shard.usage;
+                shard.emplace(record.clone(), &mut garbages, &mut notifiers);
+                // events of this emplace: weights of evicted records, in order
+                let mut freed = 0usize;
+                let mut gi = g0;
+                while gi < garbages.len() {
+                    let (ev, r) = (&garbages[gi].0, &garbages[gi].1);
+                    let rk = *r.key();
+                    let ri = if rk == 16 { 0 } else if rk == 17 { 1 } else { 2 };
+                    if *ev == Event::Evict {
+                        // C05-A2 minimality: every eviction happened while usage (old copy included) + new weight > capacity
+                        assert!(!phantom, "phantom insert evicted by capacity");
+                        assert!(pre_usage - freed + w > capacity, "C05-A2: evicted although usage + weight no longer exceeded the capacity");
+                        freed += r.weight();
+                        evicted_any = true;
+                        gw[ri] = None;
+                    } else if *ev == Event::Replace {
+                        assert!(ri == ki, "Replace event for another key");
+                        gw[ri] = None;
+                    }
+                    gi += 1;
+                }
+                if phantom {
+                    gw[ki] = None;
+                    assert!(shard.indexer.get(k >> 4, &k).is_none(), "C01-S1: phantom insert left the key resident");
+                } else {
+                    gw[ki] = Some(w);
+                    // afterwards within capacity unless the new entry alone is larger (nothing is pinned here)
+                    if w <= capacity {
+                        assert!(shard.usage <= capacity, "C05-A2: over capacity after insert");
+                    }
+                }
+                std::mem::forget(garbages);
+                std::mem::forget(notifiers);
+                std::mem::forget(record);
+            }
+            1 => {
+                let r = shard.remove(k >> 4, &k);
+                assert!(r.is_some() == gw[ki].is_some(), "remove result disagrees with the resident set");
+                gw[ki] = None;
+                std::mem::forget(r);
+            }
+            2 => {
+                let mut g = Vec::with_capacity(4);
+                shard.clear(&mut g);
+                gw = [None; 3];
+                assert!(shard.usage == 0, "C05-A3: clear() leaves usage != 0");
+                assert!(shard.entries == 0, "C05-A3: clear() leaves entries != 0");
+                std::mem::forget(g);
+            }
+            _ => {
+                let mut garbages: Vec<(Event, Arc<Record<E>>)> = Vec::with_capacity(5);
+                shard.evict(0, &mut garbages);
+                std::mem::forget(garbages);
+                gw = [None; 3];
+                assert!(shard.usage == 0 && shard.entries == 0, "evict(0) leaves entries although nothing is pinned");
+            }
+        }
+        // C05-A1 on the shard
+        let mut sum = 0;
+        let mut cnt = 0;
+        let mut j = 0;
+        while j < 3 {
+            let found = shard.indexer.get(KEYS[j] >> 4, &KEYS[j]).is_some();
+            assert!(found == gw[j].is_some(), "resident set differs from the ghost");
+            if let Some(w) = gw[j] {
+                sum += w;
+                cnt += 1;
+            }
+            j += 1;
+        }
+        assert!(shard.usage == sum, "C05-A1: usage != summed weight of findable entries");
+        assert!(shard.entries == cnt, "C05-A1: entries != number of findable entries");
+        step += 1;
+    }
+    kani::cover!(evicted_any, "opt: an eviction happened");
+    kani::cover!(true, "end reached");
+    std::mem::forget(shard);
+}
+
+macro_rules! shard_harness {
+    ($name:ident, $e:ty, $cfg:expr, $n:expr) => {
+        verif_harness! { #[kani::stub(crate::inflight::InflightManager::take, crate::inflight::InflightManager::verif_take_none)] $name, 6, {
+            shard_ops::<$e>($cfg, $n);
+        } }
+    };
+}
+shard_harness!(shard_fifo_2, FifoT, FifoConfig::default(), 2);
+shard_harness!(shard_fifo_3, FifoT, FifoConfig::default(), 3);
+shard_harness!(shard_lru_2, LruT, LRU_CFG, 2);
+shard_harness!(shard_lru_3, LruT, LRU_CFG, 3);
+shard_harness!(shard_sieve_2, SieveT, SieveConfig {}, 2);
+shard_harness!(shard_sieve_3, SieveT, SieveConfig {}, 3);
+
+// C05-A4: shard capacities add up to the configured capacity and differ by at most one.
+verif_harness! { c05_a4_capacity_split, 6, {
+    let total: usize = kani::any();
+    let shards: usize = kani::any();
+    kani::assume(shards >= 1 && shards <= 4);
+    let mut sum: usize = 0;
+    let mut lo = usize::MAX;
+    let mut hi = 0usize;
+    let mut i = 0;
+    while i < 4 {
+        if i < shards {
+            let c = Cache::<FifoT>::shard_capacity_for(total, shards, i);
+            sum = sum.checked_add(c).expect("shard capacities overflow");
+            if c < lo { lo = c; }
+            if c > hi { hi = c; }
+        }
+        i += 1;
+    }
+    assert!(sum == total, "C05-A4: shard capacities do not add up to the configured capacity");
+    assert!(hi - lo <= 1, "C05-A4: shard capacities differ by more than one");
+    kani::cover!(shards == 4 && total % 4 == 3, "uneven split");
+    kani::cover!(true, "end reached");
+} }
 
 impl<E, S, I> InflightManager<E, S, I>
 where
@@ -262,144 +603,3 @@ where
         None
     }
 }
-
-// ---- probes (temporary) ----
-verif_harness! { probe_p0_metrics, 6, { let m = Arc::new(Metrics::noop()); std::mem::forget(m); } }
-verif_harness! { probe_p1_mk, 6, { let c: Cache<Fifo<u64,u64,HProps>> = mk_cache(2, FifoConfig::default(), None, None); std::mem::forget(c); } }
-verif_harness! { #[kani::stub(crate::inflight::InflightManager::take, crate::inflight::InflightManager::verif_take_none)] probe_p2_ins, 6, { let c: Cache<Fifo<u64,u64,HProps>> = mk_cache(2, FifoConfig::default(), None, None); let v: u64 = kani::any(); kani::assume(v < 64); let e = c.insert(16, v); assert!(c.usage() == weight_of(v) || v & 4 != 0); std::mem::forget(e); std::mem::forget(c); } }
-verif_harness! { probe_q1_refs, 6, {
-    let r = Arc::new(Record::<Fifo<u64,u64,HProps>>::new(Data { key: 1, value: 2, properties: HProps::default(), hash: 3, weight: 1 }));
-    r.inc_refs(1); assert!(r.refs() == 1); std::mem::forget(r); } }
-verif_harness! { probe_q2_evict, 6, {
-    let c: Cache<Fifo<u64,u64,HProps>> = mk_cache(2, FifoConfig::default(), None, None);
-    let mut g = vec![];
-    c.inner.shards[0].write().evict(0, &mut g);
-    std::mem::forget(g); std::mem::forget(c); } }
-verif_harness! { probe_q3_fifo, 6, {
-    let mut f = Fifo::<u64,u64,HProps>::new(2, &FifoConfig::default());
-    let r = Arc::new(Record::<Fifo<u64,u64,HProps>>::new(Data { key: 1, value: 2, properties: HProps::default(), hash: 3, weight: 1 }));
-    f.push(r.clone());
-    let p = f.pop();
-    assert!(p.is_some());
-    std::mem::forget(p); std::mem::forget(r); std::mem::forget(f); } }
-verif_harness! { probe_q4_idx, 6, {
-    let mut ix: Sentry<VecIndexer<Fifo<u64,u64,HProps>>> = Sentry::default();
-    let r = Arc::new(Record::<Fifo<u64,u64,HProps>>::new(Data { key: 1, value: 2, properties: HProps::default(), hash: 3, weight: 1 }));
-    let o = ix.insert(r.clone());
-    assert!(o.is_none());
-    assert!(ix.get(3, &1u64).is_some());
-    std::mem::forget(r); std::mem::forget(ix); } }
-verif_harness! { probe_r1_vecpush, 6, {
-    let r = Arc::new(Record::<Fifo<u64,u64,HProps>>::new(Data { key: 1, value: 2, properties: HProps::default(), hash: 3, weight: 1 }));
-    let mut g: Vec<(Event, Arc<Record<Fifo<u64,u64,HProps>>>)> = vec![];
-    if kani::any() { g.push((Event::Evict, r.clone())); }
-    std::mem::forget(g); std::mem::forget(r); } }
-verif_harness! { probe_r2_metrics, 6, {
-    let m = Arc::new(Metrics::noop());
-    if kani::any() { m.memory_evict.increase(1); m.memory_entries.decrease(1); }
-    std::mem::forget(m); } }
-verif_harness! { probe_r3_popremove, 6, {
-    let c: Cache<Fifo<u64,u64,HProps>> = mk_cache(2, FifoConfig::default(), None, None);
-    {
-        let mut shard = c.inner.shards[0].write();
-        if let Some(ev) = shard.eviction.pop() {
-            let e = shard.indexer.remove(ev.hash(), ev.key()).unwrap();
-            assert_eq!(Arc::as_ptr(&ev), Arc::as_ptr(&e));
-            shard.usage -= ev.weight();
-            std::mem::forget(e); std::mem::forget(ev);
-        }
-    }
-    std::mem::forget(c); } }
-fn mk_rec(k: u64, v: u64) -> Arc<Record<Fifo<u64,u64,HProps>>> {
-    Arc::new(Record::new(Data { key: k, value: v, properties: HProps::default(), hash: k >> 4, weight: weight_of(v) }))
-}
-verif_harness! { #[kani::stub(crate::inflight::InflightManager::take, crate::inflight::InflightManager::verif_take_none)] probe_s1_emplace_guard, 4, {
-    let c: Cache<Fifo<u64,u64,HProps>> = mk_cache(2, FifoConfig::default(), None, None);
-    let v: u64 = kani::any(); kani::assume(v < 4);
-    let r = mk_rec(16, v);
-    let mut g = vec![]; let mut n = vec![];
-    c.inner.shards[0].write().with(|mut shard| shard.emplace(r.clone(), &mut g, &mut n));
-    assert!(c.usage() == weight_of(v));
-    std::mem::forget(g); std::mem::forget(n); std::mem::forget(r); std::mem::forget(c); } }
-verif_harness! { #[kani::stub(crate::inflight::InflightManager::take, crate::inflight::InflightManager::verif_take_none)] probe_s2_emplace_stack, 4, {
-    let mut shard: RawCacheShard<Fifo<u64,u64,HProps>, IdHasher, VecIndexer<Fifo<u64,u64,HProps>>> = RawCacheShard {
-        eviction: Fifo::new(2, &FifoConfig::default()), indexer: Sentry::default(), usage: 0, entries: 0, capacity: 2,
-        inflights: Arc::new(Mutex::new(InflightManager::new())), metrics: Arc::new(Metrics::noop()), _event_listener: None };
-    let v: u64 = kani::any(); kani::assume(v < 4);
-    let r = mk_rec(16, v);
-    let mut g = vec![]; let mut n = vec![];
-    shard.emplace(r.clone(), &mut g, &mut n);
-    assert!(shard.usage == weight_of(v));
-    std::mem::forget(g); std::mem::forget(n); std::mem::forget(r); std::mem::forget(shard); } }
-verif_harness! { #[kani::stub(crate::inflight::InflightManager::take, crate::inflight::InflightManager::verif_take_none)] probe_s3_insert_inner, 4, {
-    let c: Cache<Fifo<u64,u64,HProps>> = mk_cache(2, FifoConfig::default(), None, None);
-    let v: u64 = kani::any(); kani::assume(v < 4);
-    let r = mk_rec(16, v);
-    let e = c.insert_inner(r, Source::Outer);
-    assert!(c.usage() == weight_of(v));
-    std::mem::forget(e); std::mem::forget(c); } }
-fn mk_cache_lit(capacity: usize) -> Cache<Fifo<u64,u64,HProps>> {
-    let shard: RawCacheShard<Fifo<u64,u64,HProps>, IdHasher, VecIndexer<Fifo<u64,u64,HProps>>> = RawCacheShard {
-        eviction: Fifo::new(capacity, &FifoConfig::default()), indexer: Sentry::default(), usage: 0, entries: 0, capacity,
-        inflights: Arc::new(Mutex::new(InflightManager::new())), metrics: Arc::new(Metrics::noop()), _event_listener: None };
-    RawCache { pipe: Arc::new(NoopPipe::default()), inner: Arc::new(RawCacheInner { shards: vec![RwLock::new(shard)], capacity,
-        hash_builder: Arc::new(IdHasher), weighter: Arc::new(|_k: &u64, v: &u64| weight_of(*v)), filter: Arc::new(|_k: &u64, v: &u64| v & 4 == 0),
-        metrics: Arc::new(Metrics::noop()), event_listener: None }) }
-}
-verif_harness! { #[kani::stub(crate::inflight::InflightManager::take, crate::inflight::InflightManager::verif_take_none)] probe_t4_lit, 5, {
-    let c = mk_cache_lit(2);
-    let v: u64 = kani::any(); kani::assume(v < 4);
-    let r = mk_rec(16, v);
-    let mut g = vec![]; let mut n = vec![];
-    c.inner.shards[0].write().with(|mut shard| shard.emplace(r.clone(), &mut g, &mut n));
-    assert!(c.usage() == weight_of(v));
-    std::mem::forget(g); std::mem::forget(n); std::mem::forget(r); std::mem::forget(c); } }
-verif_harness! { #[kani::stub(crate::inflight::InflightManager::take, crate::inflight::InflightManager::verif_take_none)] probe_t5_nousage, 5, {
-    let c: Cache<Fifo<u64,u64,HProps>> = mk_cache(2, FifoConfig::default(), None, None);
-    let v: u64 = kani::any(); kani::assume(v < 4);
-    let r = mk_rec(16, v);
-    let mut g = vec![]; let mut n = vec![];
-    let u = c.inner.shards[0].write().with(|mut shard| { shard.emplace(r.clone(), &mut g, &mut n); shard.usage });
-    assert!(u == weight_of(v));
-    std::mem::forget(g); std::mem::forget(n); std::mem::forget(r); std::mem::forget(c); } }
-fn s6_body() {
-    let mut shard: RawCacheShard<Fifo<u64,u64,HProps>, IdHasher, VecIndexer<Fifo<u64,u64,HProps>>> = RawCacheShard {
-        eviction: Fifo::new(2, &FifoConfig::default()), indexer: Sentry::default(), usage: 0, entries: 0, capacity: 2,
-        inflights: Arc::new(Mutex::new(InflightManager::new())), metrics: Arc::new(Metrics::noop()), _event_listener: None };
-    let mut g = vec![]; let mut n = vec![];
-    let mut i = 0;
-    while i < 2 {
-        let v: u64 = kani::any(); kani::assume(v < 4);
-        let ph: bool = kani::any();
-        let k = if kani::any() { 16 } else { 17 };
-        let r = Arc::new(Record::new(Data { key: k, value: v, properties: HProps::default().with_phantom(ph), hash: k >> 4, weight: weight_of(v) }));
-        shard.emplace(r.clone(), &mut g, &mut n);
-        std::mem::forget(r);
-        i += 1;
-    }
-    assert!(shard.usage <= 6);
-    std::mem::forget(g); std::mem::forget(n); std::mem::forget(shard);
-}
-verif_harness! { #[kani::stub(crate::inflight::InflightManager::take, crate::inflight::InflightManager::verif_take_none)] probe_u6_plain, 5, { s6_body(); } }
-verif_harness! { #[kani::stub(crate::inflight::InflightManager::take, crate::inflight::InflightManager::verif_take_none)] #[kani::stub(std::alloc::handle_alloc_error, stubs::handle_alloc_error_panic)] probe_u7_allocstub, 5, { s6_body(); } }
-verif_harness! { #[kani::stub(crate::inflight::InflightManager::take, crate::inflight::InflightManager::verif_take_none)] probe_v1_getmut, 5, {
-    let mut c = mk_cache_lit(2);
-    let v: u64 = kani::any(); kani::assume(v < 4);
-    let r = mk_rec(16, v);
-    let mut g = vec![]; let mut n = vec![];
-    let inner = Arc::get_mut(&mut c.inner).unwrap();
-    let shard = inner.shards[0].get_mut();
-    shard.emplace(r.clone(), &mut g, &mut n);
-    assert!(shard.usage == weight_of(v));
-    std::mem::forget(g); std::mem::forget(n); std::mem::forget(r); std::mem::forget(c); } }
-verif_harness! { #[kani::stub(crate::inflight::InflightManager::take, crate::inflight::InflightManager::verif_take_none)] probe_v2_boxshard, 5, {
-    let shard: RawCacheShard<Fifo<u64,u64,HProps>, IdHasher, VecIndexer<Fifo<u64,u64,HProps>>> = RawCacheShard {
-        eviction: Fifo::new(2, &FifoConfig::default()), indexer: Sentry::default(), usage: 0, entries: 0, capacity: 2,
-        inflights: Arc::new(Mutex::new(InflightManager::new())), metrics: Arc::new(Metrics::noop()), _event_listener: None };
-    let mut b = Box::new(RwLock::new(shard));
-    let v: u64 = kani::any(); kani::assume(v < 4);
-    let r = mk_rec(16, v);
-    let mut g = vec![]; let mut n = vec![];
-    b.write().emplace(r.clone(), &mut g, &mut n);
-    assert!(b.read().usage == weight_of(v));
-    std::mem::forget(g); std::mem::forget(n); std::mem::forget(r); std::mem::forget(b); } }
